@@ -14,7 +14,7 @@
      And: sample j is the concatenation of sample j of the (shuffled) children, which are
           independent (dbind of consecutive stream parts): iterated expectation. *)
 From Coq Require Import List ZArith QArith Bool Lia Permutation.
-From DD Require Import Model.Circuit Model.Query Model.Enumerate
+From DD Require Import Model.Circuit Model.Query Model.Enumerate Proofs.Live Proofs.LiveCounts
      Proofs.PassLemmas Proofs.Enum Proofs.Semantics Proofs.CountsA
      Proofs.C07Defs Proofs.C07Valid Proofs.C07Urs Proofs.C07IdealDefs Proofs.C07Uniform Proofs.C07Align
      Proofs.C07GeneralDefs Proofs.C07GeneralDist Proofs.C07GeneralAlign.
@@ -73,19 +73,19 @@ Definition node_good (f : nat) (a : Z) (c : nat) : Prop :=
 
 (* the sum over all returned samples *)
 Lemma node_sum f a c g :
-  (c < length C)%nat -> (c < f)%nat -> 0 <= a -> nth c C FalseN <> TrueN -> cnt c <> 0 ->
+  (c < length C)%nat -> (c < f)%nat -> 0 <= a -> nth c C FalseN <> TrueN -> Reach C c -> cnt c <> 0 ->
   node_good f a c -> respects g ->
   (expect (JK f a c) (fun r => qsumf g (snd r))
    == inject_Z a / inject_Z (cnt c) * qsumf g (F c))%Q.
 Proof.
-  intros Hc Hf Ha Hntc Hcnt [_ Hm] Hg.
+  intros Hc Hf Ha Hntc HRc Hcnt [_ Hm] Hg.
   rewrite (expect_ext _ _ (fun r => qsumf (fun j => g (nth j (snd r) [])) (seq 0 (Z.to_nat a)))).
   - rewrite (expect_qsumf_swap (JK f a c) (fun j r => g (nth j (snd r) [])) (seq 0 (Z.to_nat a))).
     rewrite (qsumf_ext _ (fun _ => 1 / inject_Z (cnt c) * qsumf g (F c))%Q).
     + rewrite qsumf_const, seq_length, (qz_of_to a Ha). field. now apply inject_Z_nonzero.
     + intros j Hj. apply in_seq in Hj. apply (Hm j); [lia|exact Hg].
   - intros r w Hr.
-    destruct (jointk_valid d A ts SL Hok Hts HSL c f a r w Hc Hf Ha Hntc Hcnt Hr) as [Hlen _].
+    destruct (jointk_valid d A ts SL Hok Hts HSL c f a r w Hc Hf Ha Hntc HRc Hcnt Hr) as [Hlen _].
     rewrite <- Hlen. apply qsumf_positions.
 Qed.
 
@@ -93,12 +93,12 @@ Qed.
 
 (* a child after its shuffle: still uniform at every position *)
 Lemma shuffled_good f a c :
-  (c < length C)%nat -> (c < f)%nat -> 1 <= a -> cnt c <> 0 -> node_good f a c ->
+  (c < length C)%nat -> (c < f)%nat -> 1 <= a -> Reach C c -> cnt c <> 0 -> node_good f a c ->
   (total (shuffled (JK f a c)) == 1)%Q /\
   forall j, (j < Z.to_nat a)%nat -> forall g, respects g ->
     (posE (shuffled (JK f a c)) j g == 1 / inject_Z (cnt c) * qsumf g (F c))%Q.
 Proof.
-  intros Hc Hf Ha Hcnt Hgood. split.
+  intros Hc Hf Ha HRc Hcnt Hgood. split.
   - unfold shuffled. rewrite total_bind; [apply Hgood|]. intros r w _.
     rewrite total_bind; [apply uperm_total|]. intros p w' _. apply total_ret.
   - intros j Hj g Hg. unfold posE, shuffled. rewrite expect_bind.
@@ -114,10 +114,10 @@ Proof.
       destruct j; cbn [nth]; field. }
     all: assert (Hntc : nth c C FalseN <> TrueN) by congruence.
     all: rewrite (expect_ext _ _ (fun r => 1 / inject_Z a * qsumf g (snd r))%Q);
-      [rewrite expect_scale, (node_sum f a c g Hc Hf ltac:(lia) Hntc Hcnt Hgood Hg); field;
+      [rewrite expect_scale, (node_sum f a c g Hc Hf ltac:(lia) Hntc HRc Hcnt Hgood Hg); field;
        split; apply inject_Z_nonzero; [exact Hcnt|lia]|].
     all: intros r w Hr;
-      destruct (jointk_valid d A ts SL Hok Hts HSL c f a r w Hc Hf ltac:(lia) Hntc Hcnt Hr) as [Hlen _];
+      destruct (jointk_valid d A ts SL Hok Hts HSL c f a r w Hc Hf ltac:(lia) Hntc HRc Hcnt Hr) as [Hlen _];
       rewrite expect_bind;
       rewrite (expect_ext _ _ (fun p => g (nth j (apply_perm p (snd r) []) [])))
         by (intros p w' _; rewrite expect_ret; reflexivity);
@@ -127,7 +127,7 @@ Qed.
 
 Lemma and_foldK_good f a (cs : list nat) :
   1 <= a ->
-  (forall c, In c cs -> (c < length C)%nat /\ (c < f)%nat /\ cnt c <> 0 /\ node_good f a c) ->
+  (forall c, In c cs -> (c < length C)%nat /\ (c < f)%nat /\ Reach C c /\ cnt c <> 0 /\ node_good f a c) ->
   forall done D,
     zprod (map (fun c => cnt c) done) <> 0 ->
     (total D == 1)%Q ->
@@ -144,8 +144,8 @@ Proof.
   intros Ha. induction cs as [|c cs IH]; intros Hcs done D Hnz Htot Hlen Hpos.
   - cbn [fold_left]. rewrite app_nil_r. split; assumption.
   - cbn [fold_left].
-    destruct (Hcs c (or_introl eq_refl)) as [Hc [Hf [Hcnt Hgood]]].
-    destruct (shuffled_good f a c Hc Hf Ha Hcnt Hgood) as [HtotS HposS].
+    destruct (Hcs c (or_introl eq_refl)) as [Hc [Hf [HRc [Hcnt Hgood]]]].
+    destruct (shuffled_good f a c Hc Hf Ha HRc Hcnt Hgood) as [HtotS HposS].
     replace (done ++ c :: cs) with ((done ++ [c]) ++ cs) by (rewrite <- app_assoc; reflexivity).
     assert (Hz : zprod (map (fun c0 => cnt c0) (done ++ [c])) = zprod (map (fun c0 => cnt c0) done) * cnt c).
     { rewrite map_app, zprod_app. cbn [map]. rewrite zprod_cons. change (zprod []) with 1. lia. }
@@ -245,7 +245,7 @@ Qed.
 
 Lemma or_seq_good (cs : list nat) g :
   respects g ->
-  (forall c, In c cs -> (c < length C)%nat /\ (c < f)%nat /\ nth c C FalseN <> TrueN /\
+  (forall c, In c cs -> (c < length C)%nat /\ (c < f)%nat /\ nth c C FalseN <> TrueN /\ Reach C c /\
                         forall a, 0 <= a -> nth c ts 0 <> 0 -> node_good f a c) ->
   forall k,
     let D := or_seq ts (fun a' c => jointk d ts SL f a' c) v k cs in
@@ -260,12 +260,12 @@ Proof.
     + intros r w Hr. apply in_dret in Hr. destruct Hr as [-> _]. reflexivity.
     + rewrite expect_ret. reflexivity.
   - destruct (IH (fun c0 Hc0 => Hcs c0 (or_intror Hc0)) (S k)) as [Htot [Hlen Hsum]].
-    destruct (Hcs c (or_introl eq_refl)) as [Hc [Hf [Hntc Hgood]]].
+    destruct (Hcs c (or_introl eq_refl)) as [Hc [Hf [Hntc [HRc Hgood]]]].
     cbn [or_seq length seq combine live_sum]. rewrite qsumf_cons. unfold or_term at 1. cbn [fst snd].
     destruct (nth c ts 0 =? 0) eqn:Et.
     + split; [exact Htot|]. split; [exact Hlen|]. rewrite Hsum. ring.
     + apply Z.eqb_neq in Et. pose proof (nth_v_nonneg k) as Hak.
-      pose proof (live_cnt d A ts Hts c Hc Et Hntc) as Hcnt.
+      pose proof (live_cnt d A ts Hts c Hc Et Hntc HRc) as Hcnt.
       specialize (Hgood (nth k v 0) Hak Et). split; [|split].
       * rewrite total_bind; [apply Hgood|]. intros r1 w1 _.
         rewrite total_bind; [exact Htot|]. intros r2 w2 _. apply total_ret.
@@ -273,14 +273,14 @@ Proof.
         apply in_dbind in Hr. destruct Hr as [r1 [w1 [w' [Hr1 [Hr _]]]]].
         apply in_dbind in Hr. destruct Hr as [r2 [w2 [w3 [Hr2 [Hr _]]]]].
         apply in_dret in Hr. destruct Hr as [-> _]. cbn [snd]. rewrite app_length.
-        destruct (jointk_valid d A ts SL Hok Hts HSL c f _ r1 w1 Hc Hf Hak Hntc Hcnt Hr1) as [Hl1 _].
+        destruct (jointk_valid d A ts SL Hok Hts HSL c f _ r1 w1 Hc Hf Hak Hntc HRc Hcnt Hr1) as [Hl1 _].
         rewrite Hl1, (Hlen r2 w2 Hr2). pose proof (live_sum_nonneg cs (S k)). lia.
       * rewrite expect_bind.
         rewrite (expect_ext _ _ (fun r1 => qsumf g (snd r1)
                    + qsumf (or_term g v)
                        (combine cs (seq (S k) (length cs))))%Q).
         -- rewrite expect_plus, expect_const.
-           rewrite (node_sum f (nth k v 0) c g Hc Hf Hak Hntc Hcnt Hgood Hg).
+           rewrite (node_sum f (nth k v 0) c g Hc Hf Hak Hntc HRc Hcnt Hgood Hg).
            destruct Hgood as [Ht1 _]. rewrite Ht1. ring.
         -- intros r1 w1 _. rewrite expect_bind.
            rewrite (expect_ext _ _ (fun r2 => qsumf g (snd r1) + qsumf g (snd r2))%Q).
@@ -293,11 +293,12 @@ End OrSeq.
 (* ---------- the induction ---------- *)
 
 Lemma jointk_good : forall i, (i < length C)%nat ->
-  forall f, (i < f)%nat -> forall a, 0 <= a -> cnt i <> 0 -> node_good f a i.
+  forall f, (i < f)%nat -> Reach C i -> forall a, 0 <= a -> cnt i <> 0 -> node_good f a i.
 Proof.
-  apply (idx_induction C (fun i => forall f, (i < f)%nat -> forall a, 0 <= a -> cnt i <> 0 ->
+  apply (idx_induction C (fun i => forall f, (i < f)%nat -> Reach C i -> forall a, 0 <= a -> cnt i <> 0 ->
                                    node_good f a i) Hok).
-  intros i Hi IH f Hif a Ha Hcnt. destruct f as [|f]; [lia|].
+  intros i Hi IH f Hif HR a Ha Hcnt. destruct f as [|f]; [lia|].
+  pose proof (reach_children d A Hok i Hi HR Hcnt) as HRc.
   unfold node_good. rewrite jointk_S.
   destruct (a =? 0) eqn:Ea.
   { apply Z.eqb_eq in Ea. subst a. split; [apply total_ret|]. intros j Hj. cbn in Hj. lia. }
@@ -318,7 +319,8 @@ Proof.
     + intros c Hc. specialize (Hch c Hc).
       assert (Hcc : cnt c <> 0).
       { rewrite Hcu in Hcnt. apply (zprod_nonzero _ Hcnt). apply in_map_iff. now exists c. }
-      split; [lia|]. split; [lia|]. split; [exact Hcc|]. apply IH; [exact Hc|lia|exact Ha|exact Hcc].
+      split; [lia|]. split; [lia|]. split; [exact (HRc c Hc)|]. split; [exact Hcc|].
+      apply IH; [exact Hc|lia|exact (HRc c Hc)|exact Ha|exact Hcc].
     + cbn. lia.
     + apply total_ret.
     + intros r w Hr. apply in_dret in Hr. destruct Hr as [-> _]. cbn [snd]. apply repeat_n_length.
@@ -329,13 +331,14 @@ Proof.
       rewrite filter_prod; [|reflexivity|apply okA_app].
       rewrite <- !map_rev, map_map. reflexivity.
   - (* Or *)
-    assert (Hti : nth i ts 0 = cnt i) by (apply Hts; [exact Hi|congruence]).
-    destruct (HSL i cs a Hi E Ha1 ltac:(congruence)) as [Hsup [HtotS Hexp]].
-    assert (Hkids : forall c, In c cs -> (c < length C)%nat /\ (c < f)%nat /\ nth c C FalseN <> TrueN /\
+    assert (Hti : nth i ts 0 = cnt i) by (apply Hts; [exact Hi|congruence|exact HR]).
+    destruct (HSL i cs a Hi E Ha1 ltac:(congruence) HR) as [Hsup [HtotS Hexp]].
+    assert (Hkids : forall c, In c cs -> (c < length C)%nat /\ (c < f)%nat /\ nth c C FalseN <> TrueN /\ Reach C c /\
                       forall a', 0 <= a' -> nth c ts 0 <> 0 -> node_good f a' c).
     { intros c Hc. specialize (Hch c Hc). split; [lia|]. split; [lia|].
-      split; [exact (Hnt i cs c Hi E Hc)|]. intros a' Ha' Ht.
-      apply IH; [exact Hc|lia|exact Ha'|]. apply (live_cnt d A ts Hts); [lia|exact Ht|exact (Hnt i cs c Hi E Hc)]. }
+      split; [exact (Hnt i cs c Hi E Hc)|]. split; [exact (HRc c Hc)|]. intros a' Ha' Ht.
+      apply IH; [exact Hc|lia|exact (HRc c Hc)|exact Ha'|].
+      apply (live_cnt d A ts Hts); [lia|exact Ht|exact (Hnt i cs c Hi E Hc)|exact (HRc c Hc)]. }
     (* facts about one split vector of the support *)
     assert (Hvec : forall v w, In (v, w) (SL i a) ->
               Forall (fun x => 0 <= x) v /\ live_sum v 0 cs = a).
@@ -360,17 +363,17 @@ Proof.
         -- intros [c k] Hck. unfold or_term. cbn [fst snd].
            destruct (in_combine_seq 0%nat cs 0 c k Hck) as [Hk Hnth]. rewrite Nat.sub_0_r in Hnth.
            assert (Hc : In c cs) by (rewrite <- Hnth; apply nth_In; lia).
-           destruct (Hkids c Hc) as [Hcl [_ [Hntc _]]].
+           destruct (Hkids c Hc) as [Hcl [_ [Hntc [HRcc _]]]].
            destruct (nth c ts 0 =? 0) eqn:Et.
            ++ apply Z.eqb_eq in Et. rewrite expect_zero.
               rewrite dead_empty'; [rewrite qsumf_nil; ring|exact Hcl|].
-              rewrite <- (Hts c Hcl Hntc). exact Et.
+              rewrite <- (Hts c Hcl Hntc HRcc). exact Et.
            ++ apply Z.eqb_neq in Et.
               rewrite (expect_ext _ _ (fun v => (1 / inject_Z (cnt c) * qsumf g (F c))
                                                 * inject_Z (nth k v 0%Z))%Q)
                 by (intros v w _; field; apply inject_Z_nonzero; apply (live_cnt d A ts Hts); assumption).
               rewrite expect_scale. rewrite (Hexp k ltac:(lia)); rewrite Hnth; [|exact Et].
-              rewrite Hti, (Hts c Hcl Hntc). field.
+              rewrite Hti, (Hts c Hcl Hntc HRcc). field.
               split; apply inject_Z_nonzero; [exact Hcnt|].
               apply (live_cnt d A ts Hts); assumption.
       * intros v w Hv. destruct (Hvec v w Hv) as [Hnn Hls].
